@@ -167,7 +167,7 @@ class C18(Prop):
                                 '[fe80::1%]]:80', '[]:1', '[]', '[:]:', '1.2.3.4:5', '[x]y', '[x]:', gen_hostish(rng) + ':' + str(rng.randrange(70000))])
                 yield {'kind': 'split', 's': tp(s)}
             else:
-                host = rng.choice(['example.com', 'a', 'a-b.c_d', '1.2.3.4', '255.0.0.1', '::1', '2001:db8::1', 'fe80::1%eth0', 'fe80::1%]',
+                host = rng.choice(['example.com', 'a', 'a-b.c_d', '3com.com', '163.com', '9gag', '1a', '0.a', '12Foo.Bar.Bax_', '192-168-1-1.dyn.example.net', '1.2.3.4', '255.0.0.1', '::1', '2001:db8::1', 'fe80::1%eth0', 'fe80::1%]',
                                    'fe80::1%a]:1', '::ffff:1.2.3.4', 'fe80::1%[', 'x' * 63 + '.y', 'localhost.',
                                    'fe80::1%wlan\n0', 'fe80::1%a\rb', 'fe80::1%\x85', 'fe80::1%\u2028x', 'fe80::1%a b', 'fe80::1%\t'])
                 port = rng.choice([1, 80, 65535, rng.randrange(1, 65536)])
